@@ -203,15 +203,23 @@ def main(ctx):
         Ctl = enum.Enum('Ctl', allm)
         Other = enum.Enum('Other', [('X', 1), ('M0', 14)])
         fmt_e = 'e4/Ctl'
+
+        def enum_set():
+            # `enum_set` is "an iterable of enums": a list, a tuple, a one-shot iterator, a generator, the keys of a dict
+            shape = rng.choice(['list', 'tuple', 'iterator', 'generator', 'dict-keys'])
+            ctx.count('enum_set-shape', shape)
+            both = [Other, Ctl] if rng.random() < 0.7 else [Ctl, Other]
+            return {'list': lambda: list(both), 'tuple': lambda: tuple(both), 'iterator': lambda: iter(both),
+                    'generator': lambda: (e_ for e_ in both), 'dict-keys': lambda: {e_: 1 for e_ in both}.keys()}[shape]()
         for nm_, v in allm:
-            st, got = call(hf.formatted_str_to_val, nm_, fmt_e, [Other, Ctl])
+            st, got = call(hf.formatted_str_to_val, nm_, fmt_e, enum_set())
             ctx.evaluations += 1
             if st != 'ok' or got != v:
                 viol('format-enum:str_to_val', 'formatted_str_to_val(%r, %r) = %r (%s), the member has value %d' % (nm_, fmt_e, got, st, v),
                      {'members': allm})
                 break
             canon = [n_ for n_, v2 in allm if v2 == v][0]
-            st, back = call(hf.val_to_formatted_str, v, fmt_e, [Other, Ctl])
+            st, back = call(hf.val_to_formatted_str, v, fmt_e, enum_set())
             if st != 'ok' or back != canon:
                 viol('format-enum:val_to_str', 'val_to_formatted_str(%d, %r) = %r (%s) with members %r; the name of that value is %r' % (
                     v, fmt_e, back, st, allm, canon), {'members': allm})
@@ -307,6 +315,33 @@ def main(ctx):
         if st != 'ok':
             viol('bitpattern_to_val', 'bitpattern_to_val(%r, %r) raises %s' % (pat, vals_, st), {'pattern': pat})
             continue
+        # a field given more bits than it has is refused -- whether the value is too large or too negative; a negative
+        # value that fits is stored in two's complement
+        if fields:
+            f_ = rng.choice(fields)
+            n_ = widths[f_]
+            for kind_, fv_ in (('too large', (1 << n_) + rng.getrandbits(3)), ('too negative', -(1 << n_) - 1 - rng.getrandbits(3)),
+                               ('negative, fits', -rng.randint(1, 1 << (n_ - 1)))):
+                args_ = dict(vals_)
+                args_[f_] = fv_
+                st_x, v_x = call(hf.bitpattern_to_val, clean, *[args_[f] for f in fields])
+                ctx.evaluations += 1
+                if kind_ == 'negative, fits':
+                    want_x = 0
+                    left_ = {f: args_[f] % (1 << widths[f]) for f in fields}
+                    for pos_, ch in enumerate(clean[::-1]):
+                        if ch == '1':
+                            want_x |= 1 << pos_
+                        elif ch in left_:
+                            want_x |= (left_[ch] & 1) << pos_
+                            left_[ch] >>= 1
+                    good_ = (st_x, v_x) == ('ok', want_x)
+                else:
+                    good_ = st_x == 'PyrtlError'
+                if not good_:
+                    viol('bitpattern_to_val-field-range', 'bitpattern_to_val(%r) with %d-bit field %s = %d (%s): %s %r' % (
+                        clean, n_, f_, fv_, kind_, st_x, v_x), {'pattern': pat, 'fields': args_})
+                    break
         pyrtl.reset_working_block()
         w = pyrtl.Input(len(clean), 'w')
         m, fl = pyrtl.match_bitpattern(w, pat)
